@@ -605,6 +605,17 @@ def call_builtin(run, name, args, kwargs, node):
         return args[0]              # an immutable view of the same elements (nothing in the library mutates it)
     if name == 'dict' and len(args) == 1 and not kwargs and isinstance(args[0], SDict):
         return SDict(args[0].typ, args[0].get())
+
+    if name == 'dict.fromkeys' and len(args) in (1, 2) and not kwargs:
+        keys = to_set(run, args[0])
+        if keys.typ.k is not TKey:
+            raise sx.Unsupported("dict.fromkeys over non-key elements")
+        v = args[1] if len(args) == 2 else NONE
+        if not isinstance(v, SNum):
+            raise sx.Unsupported("dict.fromkeys with a non-numeric value")
+        vt = TNumK if v.np is not None else TNum
+        dt = TDict(TKey, vt)
+        return SDict(dt, dt.mk(keys.dom, z3.K(sym.KeyS, pack(v, vt))))
     if name == 'sorted' and len(args) == 1 and not kwargs:
         x = args[0]
         if isinstance(x, DictView) and x.what == 'keys':
@@ -657,6 +668,15 @@ def call_builtin(run, name, args, kwargs, node):
                     has = o.getfield(s_) is not None or run.resolve_method(o.cls, s_) is not None
                     return SBool(has)
         raise sx.Unsupported("hasattr on " + repr(o))
+    if name == 'getattr' and len(args) in (2, 3):
+        o, a = args[0], args[1]
+        if isinstance(o, SObj):
+            for s_, c_ in sx._str_consts.items():
+                if c_.get_id() == a.t.get_id():
+                    if o.getfield(s_) is not None or run.resolve_method(o.cls, s_) is not None:
+                        return run.getattr(o, s_)
+                    # (an attribute that is not in the sidecar's record may still exist on the real object: undecided)
+        raise sx.Unsupported("getattr on " + repr(o))
     if name in ('all', 'any'):
         lst = args[0]
         if isinstance(lst, SList) and lst.typ.e is TBool:
